@@ -87,9 +87,11 @@ func (n mnode) build() any {
 		// presentation settings must not leak into the []any form
 		s.SetSymbol("||").SetDelimiter(";").SetParen(true).SetLeadOnce(true).SetNoPadding(true).SetEncap(`"`).SetID("id").SetCategory("cat").SetNegativeIndices(true)
 	}
+	var vals []any
 	for _, k := range n.Kids {
-		s.Push(k.build())
+		vals = append(vals, k.build())
 	}
+	fill(s, vals, fillMode(n.String()))
 	return s
 }
 
